@@ -1,4 +1,5 @@
 import DimodModel.Pack
+import DimodModel.CooText
 import DimodModel.Wire
 open Wire SSM Pack
 
@@ -185,6 +186,26 @@ def step (line : String) : String :=
         (quad.find? fun t => (t.1 = u ∧ t.2.1 = v) ∨ (t.1 = v ∧ t.2.1 = u)).map fun t => t.2.2.floor
       "ok " ++ listOr ";" (fun t : Nat × Nat × Int => s!"{t.1}:{t.2.1}:{t.2.2}") (cooDump labels linf nzf quadf)
     | _, _, _ => "bad-op"
+  | ["coodump", hdr, vt, labels, lin, quad] => match parseVT? vt, parseNats? labels, parseRats? lin, parseTriples? quad with
+    -- the text `coo.dumps(bqm, vartype_header=hdr)` as the text-level model writes it (hex of UTF-8)
+    | some vt, some labels, some lin, some quad =>
+      let linf (u : Nat) : Rat := lin.getD (labels.idxOf u) 0
+      let quadf (u v : Nat) : Option Rat :=
+        (quad.find? fun t => (t.1 = u ∧ t.2.1 = v) ∨ (t.1 = v ∧ t.2.1 = u)).map fun t => t.2.2
+      "ok " ++ toHex (String.ofList (CooText.dumps (hdr = "1") vt labels linf quadf)) ++ "."
+    | _, _, _, _ => "bad-op"
+  | ["cooload", arg, hex] =>
+    -- `coo.loads(text, vartype=arg)`: vartype, variables in order of first appearance, accumulated biases
+    let a := if arg = "-" then none else parseVT? arg
+    let text := (hexString (hex.toList.filter (· != '.'))).toList
+    (match CooText.loads a text with
+     | none => "err"
+     | some (vt, calls) =>
+       let vars := CooText.varsOf calls
+       let pairs := ((calls.filter fun x => x.1 ≠ x.2.1).map fun x => (min x.1 x.2.1, max x.1 x.2.1)).eraseDups
+       s!"ok {match vt with | .spin => "SPIN" | .binary => "BINARY" | _ => "?"} " ++ listOr "," toString vars ++ " "
+         ++ listOr "," (fun u => showRat (CooText.linOf calls u)) vars ++ " "
+         ++ listOr ";" (fun p : Nat × Nat => s!"{p.1}:{p.2}:{showRat (CooText.quadOf calls p.1 p.2)}") pairs)
   | _ => "bad-op"
 
 partial def loop (h : IO.FS.Stream) : IO Unit := do
